@@ -71,7 +71,7 @@ def strip' (c : ICtx) (slice : Array CSN) : IM (Array CSN) := do
 theorem strip_eq (c : ICtx) (slice : Array CSN) : stripCodeSpanSpace c slice = strip' c slice := rfl
 
 /-
-NOT proved: `⦃CsCovA c lo hi slice⦄ strip' c slice ⦃⇓? r _ => CsCovA c lo hi r⦄` (which with `strip_eq` is `StripCov`).
+(superseded: proved as `stripCov` in ParseAsmScanCovStrip3.lean) formerly NOT proved: `⦃CsCovA c lo hi slice⦄ strip' c slice ⦃⇓? r _ => CsCovA c lo hi r⦄` (which with `strip_eq` is `StripCov`).
 `mvcgen +jp [strip', lastOKM_spec, …]` yields four trivial loop conditions and two result conditions whose hypotheses are
 exactly `h3`, `h` of `strip_result_cov` and the fact of the first `srcIs` — but the postcondition of the LAST monadic call before
 the pure remainder (`lastOKM`, also when it is inlined, also with a state-free specification) does not reach the conditions:
